@@ -2,6 +2,33 @@
 from checks.worldcheck import Spec, replayed_delivery
 
 PROP = "C02"
+L = 256 * 1024
+
+
+def explicit(tier, seed):
+    """Results around the checkpoint size limit (summarised contexts are rebuilt on replay) feeding later control flow."""
+    i = 0
+    tail = [{"k": "wait", "s": 1}, {"k": "step", "val": "after"}]
+    for n in (L - 3, L + 10, 2 * L):
+        for cfg in (None, {"summary": '{"s":1}'}):
+            yield {"label": "big-child", "prog": {"body": [{"k": "child", "body": [{"k": "step", "val": 1}, {"k": "step", "val": 2}], "result": {"big": n}, "cfg": cfg}] + tail},
+                   "prog_seed": 25000 + i, "pattern": {"p": "crash_enum", "max_points": 8} if tier != "quick" or i % 3 == 0 else {"p": "plain"}}
+            i += 1
+        for kind in ("par", "map"):
+            for cfg in (None, {"preset": "all_completed"}):
+                brs = [{"body": [{"k": "step", "val": 1}], "result": {"big": n}}, {"body": [{"k": "step", "val": 2}]}]
+                node = {"k": "par", "branches": brs, "cfg": cfg} if kind == "par" else {"k": "map", "items": [1, 2], "per_item": brs, "body": [], "cfg": cfg}
+                yield {"label": "big-branch-" + kind, "prog": {"body": [node] + tail}, "prog_seed": 25000 + i, "pattern": {"p": "plain"}}
+                i += 1
+    for kind in ("par", "map"):
+        brs = [{"body": [{"k": "step", "val": j}], "result": {"big": L // 2}} for j in range(3)]
+        node = {"k": "par", "branches": brs, "cfg": {"preset": "all_completed"}} if kind == "par" else \
+            {"k": "map", "items": [0, 1, 2], "per_item": brs, "body": [], "cfg": None}
+        yield {"label": "big-batch-" + kind, "prog": {"body": [node, {"k": "if", "ref": 0, "eq": "never", "then": [], "else": [{"k": "step", "val": "else-branch"}]}] + tail},
+               "prog_seed": 25000 + i, "pattern": {"p": "crash_enum", "max_points": 8}}
+        i += 1
+
+
 SPEC = Spec(
     PROP,
     level="fault_enumeration",
@@ -16,6 +43,7 @@ SPEC = Spec(
     "(runs that interrupted an at-most-once step are excluded from oracle 2 only). Non-trivial = a completed operation was delivered "
     "again in a later invocation. A class = (program shape hash, interruption pattern, crash landing event kind).",
     deciding=replayed_delivery,
+    explicit=explicit,
     minima={"c02_deliveries": 500},
 )
 cases = SPEC.cases
